@@ -16,6 +16,7 @@ Ty = tuple  # type: ignore[type-arg]
 INT, STR, BOOL, FLOAT, BYTES, NONE = ("int",), ("str",), ("bool",), ("float",), ("bytes",), ("none",)
 A, B, C = ("cls", "A"), ("cls", "B"), ("cls", "C")
 ENUM, PROTO, DC, NT = ("enum",), ("proto",), ("dc",), ("nt",)
+VTUP = ("vtuple",)   # Tuple[int, *Tuple[str, ...]]
 
 PRELUDE = '''\
 from typing import Callable, Dict, Generic, List, Literal, NamedTuple, Optional, Protocol, Set, Tuple, TypeVar, Union
@@ -99,6 +100,19 @@ class Box(Generic[T]):
         return str(self.item)
 
 
+class AnyEq:
+    """Compares equal to everything (custom __eq__): narrowing by == / in must not trust it."""
+
+    def __eq__(self, other: object) -> bool:
+        return True
+
+    def __hash__(self) -> int:
+        return 0
+
+
+ANY_EQ = AnyEq()
+
+
 def ident(x: T) -> T:
     return x
 
@@ -149,6 +163,8 @@ def ann(t: Ty) -> str:
         return "D"
     if k == "nt":
         return "NT"
+    if k == "vtuple":
+        return "Tuple[int, *Tuple[str, ...]]"
     raise AssertionError(t)
 
 
@@ -225,8 +241,10 @@ class Gen:
             return ("box", r.choice([INT, STR, A, ("list", INT)]))
         if x < 0.95:
             return ("lit", tuple(r.sample(["a", "b", "c"], 2)) if r.random() < 0.5 else tuple(r.sample([1, 2, 3], 2)))
-        if x < 0.98:
+        if x < 0.97:
             return ("call", (self.scalar(),), self.scalar())
+        if x < 0.985:
+            return VTUP
         return PROTO
 
     # ---- values (driver side; always of the declared type) ---------------------------------------
@@ -278,12 +296,14 @@ class Gen:
             return f"D({self.value(INT)}, {self.value(STR)}, [{self.value(INT)}])" if r.random() < 0.6 else f"D({self.value(INT)})"
         if k == "nt":
             return f"NT({self.value(INT)}, {self.value(STR)})"
+        if k == "vtuple":
+            return r.choice(["(1,)", "(2, 'a')", "(3, 'a', 'b')", "(0, '', 'x', 'y')"])
         raise AssertionError(t)
 
     # ---- expressions of a given static type, from an environment ---------------------------------
-    def expr(self, t: Ty, env: dict[str, Ty], depth: int = 0) -> str:
+    def expr(self, t: Ty, env: dict[str, Ty], depth: int = 0, exact: bool = False) -> str:
         r = self.r
-        cands = [v for v, vt in env.items() if sub(vt, t)]
+        cands = [v for v, vt in env.items() if (vt == t if exact else sub(vt, t))]
         if cands and (depth >= self.max_depth or r.random() < 0.45):
             return r.choice(cands)
         if depth >= self.max_depth:
@@ -342,7 +362,7 @@ class Gen:
             return some(r.choice(t[1]))
         if k == "list":
             e = t[1]
-            opts = [lambda: "[" + ", ".join(some(e) for _ in range(r.randint(1, 3))) + "]", lambda: f"({some(t)} + {some(t)})", lambda: f"list({some(t)})",
+            opts = [lambda: "[" + ", ".join(self.expr(e, env, d, exact=True) for _ in range(r.randint(1, 3))) + "]", lambda: f"({some(t)} + {some(t)})", lambda: f"list({some(t)})",
                     lambda: f"[_c for _c in {some(t)}]", lambda: f"{some(t)}[:2]", lambda: f"sorted({some(t)})" if e in (INT, STR) else self.value(t)]
             if e == INT:
                 opts += [lambda: f"{some(C)}.only_c()", lambda: f"[len(_s) for _s in {some(('list', STR))}]", lambda: f"list(range({some(INT)} % 5))",
@@ -375,6 +395,8 @@ class Gen:
             return r.choice([lambda: f"D({some(INT)}, {some(STR)})", lambda: f"D({some(INT)})", lambda: f"D(a={some(INT)}, c={some(('list', INT))})"])()
         if k == "nt":
             return f"NT({some(INT)}, {some(STR)})"
+        if k == "vtuple":
+            return r.choice([f"({some(INT)},)", f"({some(INT)}, {some(STR)})", f"({some(INT)}, {some(STR)}, {some(STR)})"])
         raise AssertionError(t)
 
     # ---- statements ---------------------------------------------------------------------------------
@@ -407,7 +429,7 @@ class Gen:
         if k == "cls":
             return {"A": f"{acc} += {v}.m() + len({v}.name())", "B": f"{acc} += len({v}.only_b()) + len({v}.w)", "C": f"{acc} += len({v}.only_c()) + {v}.items[0]"}[t[1]]
         if k == "enum":
-            return f"{acc} += {v}.value"
+            return f"{acc} += len({v}.name)"
         if k == "lit":
             return f"{acc} += len(str({v}))"
         if k == "box":
@@ -424,6 +446,8 @@ class Gen:
             return f"{acc} += 0 if {v} is None else 1"
         if k == "union":
             return f"{acc} += len(str({v}))"
+        if k == "vtuple":
+            return f"{acc} += {v}[0] + len({v})"
         raise AssertionError(t)
 
     def isinstance_test(self, t: Ty) -> str | None:
@@ -506,6 +530,27 @@ class Gen:
             if all(c or it == NONE for it, c in tests[:-1]):
                 out += [f"{ind}else:", f"{ind}    {self.use(last_t, v, env, acc)}"]
             return out
+        if t == VTUP:
+            self.features.add("narrow:match-sequence-star")
+            a0, a1, a2 = self.fresh("s"), self.fresh("s"), self.fresh("s")
+            form = r.choice(["star_tail", "exact", "two_star"])
+            if form == "star_tail":
+                out += [f"{ind}match {v}:", f"{ind}    case ({a0}, {a1}, *{a2}):", f"{ind}        {acc} += {a0} + len({a1}) + len({a2})",
+                        f"{ind}    case _:", f"{ind}        {acc} += len({v})"]
+            elif form == "exact":
+                out += [f"{ind}match {v}:", f"{ind}    case ({a0},):", f"{ind}        {acc} += {a0}", f"{ind}    case ({a0}, {a1}):",
+                        f"{ind}        {acc} += {a0} + len({a1})", f"{ind}    case _:", f"{ind}        {acc} += len({v}) + {v}[0]"]
+            else:
+                out += [f"{ind}match {v}:", f"{ind}    case ({a0}, *{a2}, {a1}):", f"{ind}        {acc} += {a0} + len({a1}) + len({a2})",
+                        f"{ind}    case ({a0}, *{a2}):", f"{ind}        {acc} += {a0} - len({a2})"]
+            return out
+        if t[0] == "union" and set(t[1]) <= {INT, STR, BYTES, NONE} and (INT in t[1] or STR in t[1]) and r.random() < 0.6:
+            self.features.add("narrow:in-tuple")
+            if INT in t[1]:
+                out += [f"{ind}if {v} in (0, 1, 7):", f"{ind}    {acc} += {v} + 1", f"{ind}else:", f"{ind}    {acc} += len(str({v}))"]
+            else:
+                out += [f"{ind}if {v} in ('a', 'hello'):", f"{ind}    {acc} += len({v}.upper())", f"{ind}else:", f"{ind}    {acc} += len(str({v}))"]
+            return out
         if t == A:
             self.features.add("narrow:subclass")
             out += [f"{ind}if isinstance({v}, B):", f"{ind}    {self.use(B, v, env, acc)}", f"{ind}elif isinstance({v}, C):",
@@ -513,7 +558,7 @@ class Gen:
             return out
         if t == ENUM:
             self.features.add("narrow:enum")
-            out += [f"{ind}if {v} is E.X:", f"{ind}    {acc} += 1", f"{ind}elif {v} == E.Y:", f"{ind}    {acc} += 2", f"{ind}else:", f"{ind}    {acc} += {v}.value"]
+            out += [f"{ind}if {v} is E.X:", f"{ind}    {acc} += 1", f"{ind}elif {v} == E.Y:", f"{ind}    {acc} += 2", f"{ind}else:", f"{ind}    {acc} += len({v}.name)"]
             return out
         if t[0] == "lit":
             self.features.add("narrow:literal")
@@ -526,6 +571,10 @@ class Gen:
         return self.expr(self.cur_ret, env, 1)
 
     def block(self, env: dict[str, Ty], acc: str, ind: str, depth: int, n: int) -> list[str]:
+        out = self._block(env, acc, ind, depth, n)
+        return out or [f"{ind}{acc} += 0"]
+
+    def _block(self, env: dict[str, Ty], acc: str, ind: str, depth: int, n: int) -> list[str]:
         r = self.r
         out: list[str] = []
         for _ in range(n):
@@ -614,6 +663,10 @@ class Gen:
         r = self.r
         name = f"f{idx}"
         params = [(f"p{j}", self.rtype()) for j in range(r.randint(1, 3))]
+        if r.random() < 0.3:
+            params.append((f"p{len(params)}", ("union", (INT, STR))))
+        if r.random() < 0.2:
+            params.append((f"p{len(params)}", VTUP))
         ret = r.choice([INT, INT, STR, self.rtype(1)])
         self.cur_ret = ret
         env: dict[str, Ty] = dict(params)
@@ -672,7 +725,7 @@ def perturb(src: str, rng: random.Random) -> tuple[str, str] | None:
     if not idxs:
         return None
     ops = ["drop_none_check", "swap_isinstance", "widen_annotation", "narrow_annotation", "swap_args", "replace_operand", "negate_test",
-           "drop_else", "change_return", "wrong_value", "swap_branches", "remove_or_default"]
+           "drop_else", "change_return", "wrong_value", "swap_branches", "remove_or_default", "inject_any_eq", "inject_any_eq", "case_body_type"]
     for _ in range(30):
         op = rng.choice(ops)
         i = rng.choice(idxs)
@@ -716,6 +769,12 @@ def perturb(src: str, rng: random.Random) -> tuple[str, str] | None:
             new = ln.split(" = ")[0] + " = " + rng.choice(["None", "'s'", "0", "[]", "{}", "A(1)", "(1, 's')", "1.5"])
         elif op == "swap_branches" and ln.strip().startswith("elif isinstance("):
             new = ln.replace("elif ", "if ", 1)
+        elif op == "inject_any_eq" and re.search(r" in \((\d+|'[^']*'), ", ln):
+            new = re.sub(r" in \((\d+|'[^']*'), ", " in (ANY_EQ, ", ln, count=1)
+        elif op == "inject_any_eq" and re.search(r" == (E\.[XYZ]|\d+|'[^']*'):", ln):
+            new = re.sub(r" == (E\.[XYZ]|\d+|'[^']*'):", " == ANY_EQ:", ln, count=1)
+        elif op == "case_body_type" and i > 0 and lines[i - 1].strip().startswith("case ") and "+=" in ln:
+            new = re.sub(r"\+= .*", "+= 's'", ln)
         elif op == "remove_or_default" and " or " in ln and " = " in ln:
             new = re.sub(r" or [^\n]+$", "", ln)
         if new is not None and new != ln:
